@@ -159,11 +159,13 @@ def classify_body(body, whole, fld):
 
 def table(src, fname, variants, spans):
     body, spans[fname] = src.fn_body(fname)
-    m = re.search(r'\bmatch\s+\w+\s*\{', body)
+    m = re.match(r'\s*match\s+\w+\s*\{', body)
     if not m:
-        raise AnchorLost(fname + ': no match')
+        raise AnchorLost(fname + ': the body does not start with `match <ident> {`: ' + squash(body)[:80])
     i = m.end() - 1
     j = match_close(body, i)
+    if body[j + 1:].strip():
+        raise AnchorLost(fname + ': statements after the match: ' + squash(body[j + 1:])[:80])
     rows = []
     for pat, arm in split_arms(body[i + 1:j]):
         for alt in split_alternatives(pat):
@@ -176,11 +178,14 @@ def table(src, fname, variants, spans):
 
 
 def match_block(body, what):
-    m = re.search(r'\bmatch\s+\w+\s*\{', body)
+    m = re.match(r'\s*match\s+\w+\s*\{', body)
     if not m:
-        raise AnchorLost(what + ': no match')
+        raise AnchorLost(what + ': the body does not start with `match <ident> {`')
     i = m.end() - 1
-    return body[i + 1:match_close(body, i)]
+    j = match_close(body, i)
+    if body[j + 1:].strip():
+        raise AnchorLost(what + ': statements after the match')
+    return body[i + 1:j]
 
 
 def extract_datagram(repo, f, spans):
@@ -220,14 +225,15 @@ def extract_datagram(repo, f, spans):
         raise AnchorLost('convert_h3_error_to_datagram_error arms')
     f['h3dg'] = rows
     body, spans['send_datagram'] = src.fn_body('send_datagram')
-    if not re.search(r'\.send_datagram\(', body) or not re.search(r'\.map_err\(\s*convert_send_datagram_error\s*\)', body):
-        raise AnchorLost('send_datagram body')
-    f['send_datagram_whole'] = bool(re.search(r'\.send_datagram\(\s*buf\.copy_to_bytes\(\s*buf\.remaining\(\)\s*\)\s*\)', body))
-    if not f['send_datagram_whole']:
-        raise AnchorLost('send_datagram hands over something else than copy_to_bytes(remaining())')
+    if squash(body) != ('letmutbuf:EncodedDatagram<B>=data.into();self.conn.send_datagram(buf.copy_to_bytes(buf.remaining()))'
+                        '.map_err(convert_send_datagram_error)'):
+        raise AnchorLost('send_datagram is not the known body: ' + squash(body)[:160])
+    f['send_datagram_whole'] = True
     body, spans['poll_incoming_datagram'] = src.fn_body('poll_incoming_datagram')
-    if not re.search(r'\.map_err\(\s*convert_connection_error\s*\)', body):
-        raise AnchorLost('poll_incoming_datagram error conversion')
+    if squash(body) != ('Poll::Ready(ready!(self.datagrams.poll_next_unpin(cx)).expect("self.datagramsneverreturnsNone")'
+                        '.map_err(convert_connection_error),)'):
+        raise AnchorLost('poll_incoming_datagram is not the known body: ' + squash(body)[:160])
+    check_inventory(src, DGRAM_INVENTORY, 'datagram.rs')
 
 
 # whole bodies (white space removed) of the open/accept wrappers: the error of Quinn's future goes through
@@ -316,6 +322,74 @@ def extract_sites(src, f, spans):
         raise AnchorLost('poll_data is not the known statement sequence: ' + got[:200])
 
 
+def inventory(src):
+    """top-level items of a file: every `impl ... {` header (white space removed) with the names of its fns, and every free fn"""
+    text = src.text
+    items, depth, i, n = [], 0, 0, len(text)
+    while i < n:
+        c = text[i]
+        if c == '"':
+            i += 1
+            while i < n and text[i] != '"':
+                i += 2 if text[i] == '\\' else 1
+        elif c == '{':
+            depth += 1
+        elif c == '}':
+            depth -= 1
+        elif depth == 0:
+            m = re.compile(r'\bimpl\b[^{;]*\{').match(text, i)
+            if m and (i == 0 or not (text[i - 1].isalnum() or text[i - 1] == '_')):
+                j = match_close(text, m.end() - 1)
+                fns = re.findall(r'\bfn\s+(\w+)', text[m.end():j])
+                items.append(squash(text[i:m.end() - 1]) + ':' + ','.join(fns))
+                i = j
+            else:
+                m = re.compile(r'\bfn\s+(\w+)').match(text, i)
+                if m and (i == 0 or not (text[i - 1].isalnum() or text[i - 1] == '_')):
+                    items.append('fn:' + m.group(1))
+                    i = m.end() - 1
+        i += 1
+    return items
+
+
+LIB_INVENTORY = [
+    'implConnection:new',
+    'impl<B>quic::Connection<B>forConnectionwhereB:Buf,:poll_accept_bidi,poll_accept_recv,opener',
+    'fn:convert_connection_error',
+    'impl<B>quic::OpenStreams<B>forConnectionwhereB:Buf,:poll_open_bidi,poll_open_send,close',
+    'impl<B>quic::OpenStreams<B>forOpenStreamswhereB:Buf,:poll_open_bidi,poll_open_send,close',
+    'implCloneforOpenStreams:clone',
+    'impl<B>quic::BidiStream<B>forBidiStream<B>whereB:Buf,:split',
+    'impl<B:Buf>quic::RecvStreamforBidiStream<B>:poll_data,stop_sending,recv_id',
+    'impl<B>quic::SendStream<B>forBidiStream<B>whereB:Buf,:poll_ready,poll_finish,reset,send_data,send_id',
+    'impl<B>quic::SendStreamUnframed<B>forBidiStream<B>whereB:Buf,:poll_send',
+    'impl<B>quic::Is0rttforBidiStream<B>whereB:Buf,:is_0rtt',
+    'implRecvStream:new',
+    'implquic::RecvStreamforRecvStream:poll_data,stop_sending,recv_id',
+    'implquic::Is0rttforRecvStream:is_0rtt',
+    'fn:convert_read_error_to_stream_error',
+    'fn:convert_write_error_to_stream_error',
+    'impl<B>SendStream<B>whereB:Buf,:new',
+    'impl<B>quic::SendStream<B>forSendStream<B>whereB:Buf,:poll_ready,poll_finish,reset,send_data,send_id',
+    'impl<B>quic::SendStreamUnframed<B>forSendStream<B>whereB:Buf,:poll_send',
+]
+DGRAM_INVENTORY = [
+    'impl<B:Buf>SendDatagram<B>forSendDatagramHandler:send_datagram',
+    'implRecvDatagramforRecvDatagramHandler:poll_incoming_datagram',
+    'impl<B:Buf>DatagramConnectionExt<B>forConnection:send_datagram_handler,recv_datagram_handler',
+    'fn:convert_send_datagram_error',
+    'fn:convert_h3_error_to_datagram_error',
+]
+
+
+def check_inventory(src, expected, name):
+    got = inventory(src)
+    if got != expected:
+        new = [x for x in got if x not in expected]
+        gone = [x for x in expected if x not in got]
+        raise AnchorLost('%s: the impl blocks / functions are not the known ones (new: %s; missing: %s)' % (name, new[:3], gone[:3]))
+
+
 def extract(repo):
     src = Source(repo + '/h3-quinn/src/lib.rs')
     f, spans = {}, {}
@@ -325,83 +399,82 @@ def extract(repo):
     f['read'] = table(src, 'convert_read_error_to_stream_error', READ_VARIANTS, spans)
     f['write'] = table(src, 'convert_write_error_to_stream_error', WRITE_VARIANTS, spans)
 
-    # ---- RecvStream
+    check_inventory(src, LIB_INVENTORY, 'lib.rs')
+    # ---- RecvStream: whole bodies (comments and white space removed); an unknown shape is an AnchorLost,
+    # never a silently negated fact
     _, _, m = src.item_block(r'impl\s+RecvStream\s*\{')
     body, spans['RecvStream::new'] = src.fn_body('new', after=m.start())
-    f['recv_new_caches_id'] = bool(re.search(r'\bid\s*:\s*num\.try_into\(\)\.expect\(', body))
-    if not re.search(r'stream\s*:\s*Some\(stream\)', body) or not re.search(r'pending_stop\s*:\s*None', body):
-        raise AnchorLost('RecvStream::new initial state')
+    if squash(body) != ('letis_0rtt=stream.is_0rtt();letnum:u64=stream.id().into();Self{id:num.try_into().expect("invalidstreamid"),'
+                        'stream:Some(stream),read_chunk_fut:ReusableBoxFuture::new(async{unreachable!()}),is_0rtt,pending_stop:None,}'):
+        raise AnchorLost('RecvStream::new is not the known body: ' + squash(body)[:160])
+    f['recv_new_caches_id'] = True
+    _, _, m = src.item_block(r'impl<B>\s+SendStream<B>\s+where')
+    body, spans['SendStream::new'] = src.fn_body('new', after=m.start())
+    if squash(body) != 'Self{stream,writing:None,}':
+        raise AnchorLost('SendStream::new is not the known body: ' + squash(body)[:120])
     _, _, m = src.item_block(r'impl\s+quic::RecvStream\s+for\s+RecvStream\s*\{')
     body, spans['recv_id'] = src.fn_body('recv_id', after=m.start())
-    flat = re.sub(r'\s+', '', body)
+    flat = squash(body)
     if flat == 'self.id':
         f['recv_id_cached'] = True
-    elif re.search(r'self\.stream\.as_ref\(\)\.(unwrap\(\)|expect\()', flat):
+    elif flat == 'letnum:u64=self.stream.as_ref().unwrap().id().into();num.try_into().expect("invalidstreamid")':
         f['recv_id_cached'] = False
     else:
-        raise AnchorLost('recv_id body ' + flat[:60])
-    if f['recv_id_cached'] and not f['recv_new_caches_id']:
-        raise AnchorLost('recv_id reads self.id but new() does not set it from the stream')
+        raise AnchorLost('recv_id body ' + flat[:80])
     body, spans['poll_data'] = src.fn_body('poll_data', after=m.start())
-    if not re.search(r'if\s+let\s+Some\(\s*mut\s+stream\s*\)\s*=\s*self\.stream\.take\(\)', body):
-        raise AnchorLost('poll_data take')
-    if not re.search(r'stream\.read_chunk\(\s*usize::MAX\s*,\s*true\s*\)', body):
-        raise AnchorLost('poll_data ordered read_chunk')
-    if not re.search(r'ready!\(\s*self\.read_chunk_fut\.poll\(cx\)\s*\)', body):
-        raise AnchorLost('poll_data poll of the reusable future')
-    f['poll_data_puts_back'] = bool(re.search(r'self\.stream\s*=\s*Some\(\s*stream\s*\)\s*;', body))
-    f['poll_data_delivers_stop'] = bool(re.search(
-        r'if\s+let\s+Some\(\s*(\w+)\s*\)\s*=\s*self\.pending_stop\.take\(\)\s*\{\s*let\s+_\s*=\s*stream\.stop\(\s*\1\s*\)\s*;\s*\}', body))
-    if not re.search(r'\.map_err\(\s*convert_read_error_to_stream_error\s*\)', body):
-        raise AnchorLost('poll_data error conversion')
-    if not re.search(r'\.map\(\s*\|\s*c\s*\|\s*c\.bytes\s*\)', body):
-        raise AnchorLost('poll_data chunk bytes')
+    flat = squash(body)           # the statement sequence itself is compared in extract_sites
+    f['poll_data_puts_back'] = POLL_DATA_PUT in flat
+    f['poll_data_delivers_stop'] = POLL_DATA_STOP in flat
     body, spans['stop_sending'] = src.fn_body('stop_sending', after=m.start())
-    if not re.search(r'VarInt::from_u64\(\s*error_code\s*\)\.expect\(', body):
-        raise AnchorLost('stop_sending code conversion')
-    mm = re.search(r'if\s+let\s+Some\(\s*stream\s*\)\s*=\s*self\.stream\.as_mut\(\)\s*\{\s*let\s+_\s*=\s*stream\.stop\(\s*error_code\s*\)\s*;\s*\}'
-                   r'(\s*else\s*\{\s*self\.pending_stop\s*=\s*Some\(\s*error_code\s*\)\s*;\s*\})?', body)
-    if not mm:
-        raise AnchorLost('stop_sending branches')
-    f['stop_sending_defers'] = bool(mm.group(1))
+    head = ('leterror_code=VarInt::from_u64(error_code).expect("invaliderror_code");'
+            'ifletSome(stream)=self.stream.as_mut(){let_=stream.stop(error_code);}')
+    if squash(body) == head + 'else{self.pending_stop=Some(error_code);}':
+        f['stop_sending_defers'] = True
+    elif squash(body) == head:
+        f['stop_sending_defers'] = False
+    else:
+        raise AnchorLost('stop_sending is not the known body: ' + squash(body)[:200])
 
     # ---- SendStream
     _, _, m = src.item_block(r'impl<B>\s+quic::SendStream<B>\s+for\s+SendStream<B>')
     body, spans['poll_ready'] = src.fn_body('poll_ready', after=m.start())
-    if not re.search(r'if\s+let\s+Some\(\s*ref\s+mut\s+data\s*\)\s*=\s*self\.writing\s*\{\s*while\s+data\.has_remaining\(\)', body):
-        raise AnchorLost('poll_ready loop head')
-    mm = re.search(r'let\s+(\w+)\s*=\s*ready!\(\s*stream\.poll_write\(\s*cx\s*,\s*data\.chunk\(\)\s*\)\s*\)\s*'
-                   r'\.map_err\(\s*convert_write_error_to_stream_error\s*\)\s*\?\s*;\s*data\.advance\(\s*([^;]*?)\s*\)\s*;', body)
-    if not mm:
-        raise AnchorLost('poll_ready write/advance')
-    if mm.group(2) != mm.group(1):
-        raise AnchorLost('poll_ready advances by `%s`, not by the accepted count' % mm.group(2))
-    f['poll_ready_advances_by_written'] = True
-    f['poll_ready_clears_writing'] = bool(re.search(r'\}\s*self\.writing\s*=\s*None\s*;\s*Poll::Ready\(\s*Ok\(\s*\(\)\s*\)\s*\)\s*$', body.strip()))
-    body, spans['send_data'] = src.fn_body('send_data', after=m.start())
-    if not re.search(r'self\.writing\s*=\s*Some\(\s*data\.into\(\)\s*\)\s*;\s*Ok\(\s*\(\)\s*\)\s*$', body.strip()):
-        raise AnchorLost('send_data store')
-    mm = re.search(r'if\s+self\.writing\.is_some\(\)\s*\{', body)
-    if mm:
-        e = match_close(body, mm.end() - 1)
-        inner = body[mm.end():e]
-        r = re.search(r'return\s+Err\(\s*StreamErrorIncoming::ConnectionErrorIncoming\s*\{\s*connection_error\s*:\s*ConnectionErrorIncoming::(\w+)', inner)
-        if not r or r.group(1) not in TARGETS:
-            raise AnchorLost('send_data refusal value')
-        f['send_data_guard'] = True
-        f['send_data_refusal'] = r.group(1)
+    loop = ('ifletSome(refmutdata)=self.writing{whiledata.has_remaining(){letstream=Pin::new(&mutself.stream);'
+            'letwritten=ready!(stream.poll_write(cx,data.chunk())).map_err(convert_write_error_to_stream_error)?;'
+            'data.advance(written);}}')
+    flat = squash(body)
+    if flat == loop + 'self.writing=None;Poll::Ready(Ok(()))':
+        f['poll_ready_clears_writing'] = True
+    elif flat == loop + 'Poll::Ready(Ok(()))':
+        f['poll_ready_clears_writing'] = False
     else:
+        raise AnchorLost('poll_ready is not the known body (loop over poll_write advancing by the accepted count, '
+                         'then `self.writing = None`): ' + flat[:240])
+    f['poll_ready_advances_by_written'] = True
+    body, spans['send_data'] = src.fn_body('send_data', after=m.start())
+    flat = squash(body)
+    store = 'self.writing=Some(data.into());Ok(())'
+    g = re.fullmatch(r'ifself\.writing\.is_some\(\)\{#\[cfg\(feature="tracing"\)\]tracing::error!\("[^"]*"\);'
+                     r'returnErr\(StreamErrorIncoming::ConnectionErrorIncoming\{connection_error:ConnectionErrorIncoming::'
+                     r'(InternalError\("[^"]*"\.to_string\(\),?\)|Timeout),?\}\);\}' + re.escape(store), flat)
+    if g:
+        f['send_data_guard'] = True
+        f['send_data_refusal'] = 'InternalError' if g.group(1).startswith('InternalError') else 'Timeout'
+    elif flat == store:
         f['send_data_guard'] = False
         f['send_data_refusal'] = 'InternalError'
+    else:
+        raise AnchorLost('send_data is not the known body: ' + flat[:240])
     body, spans['send_id'] = src.fn_body('send_id', after=m.start())
-    if re.sub(r'\s+', '', body) != 'letnum:u64=self.stream.id().into();num.try_into().expect("invalidstreamid")':
+    if squash(body) != 'letnum:u64=self.stream.id().into();num.try_into().expect("invalidstreamid")':
         raise AnchorLost('send_id body')
     body, spans['reset'] = src.fn_body('reset', after=m.start())
-    if not re.search(r'\.reset\(\s*VarInt::from_u64\(\s*reset_code\s*\)', body):
-        raise AnchorLost('reset body')
-    f['reset_saturates'] = bool(re.search(r'\.unwrap_or\(\s*VarInt::MAX\s*\)', body))
-    if not f['reset_saturates'] and not re.search(r'\.(unwrap|expect)\(', body):
-        raise AnchorLost('reset code conversion')
+    if squash(body) == 'let_=self.stream.reset(VarInt::from_u64(reset_code).unwrap_or(VarInt::MAX));':
+        f['reset_saturates'] = True
+    elif squash(body) in ('let_=self.stream.reset(VarInt::from_u64(reset_code).unwrap());',
+                          'let_=self.stream.reset(VarInt::from_u64(reset_code).expect("invalidreset_code"));'):
+        f['reset_saturates'] = False
+    else:
+        raise AnchorLost('reset is not the known body: ' + squash(body)[:160])
     body, spans['poll_finish'] = src.fn_body('poll_finish', after=m.start())
     fin = 'Poll::Ready(self.stream.finish().map_err(|e|StreamErrorIncoming::Unknown(Box::new(e))),)'
     drain = 'ifself.writing.is_some(){ready!(self.poll_ready(cx))?;}'
